@@ -31,8 +31,10 @@ def table(values, f):
     for x in values:
         b = bits(x)
         if b in seen: continue
-        seen[b] = 1; w += hl(x) + hl(f(x))
-    return [len(seen)] + w
+        seen[b] = 1
+        y = f(x)
+        if bits(y) != b: w += hl(x) + hl(y)        # the model's table is the identity outside its entries
+    return [len(w) // 4] + w
 
 def mesh_wire(vs, ts):
     w = [len(vs)]
@@ -297,6 +299,46 @@ def dump_ints(d):
     for t in d["tris"]: w += list(t)
     return w
 
+def strip(n, rng=None):
+    """open strip with exactly n triangles and n+2 vertices, consistently wound; generic coordinates"""
+    jx = rng.random() if rng else 0.5
+    vs = [(0.1 * (k // 2) + 0.0371 * (k % 2) + jx, float(k % 2) * 1.7 - 0.3, 0.25 * ((k // 2) % 3)) for k in range(n + 2)]
+    ts = [(k, k + 1, k + 2) if k % 2 == 0 else (k + 1, k, k + 2) for k in range(n)]
+    return vs, ts
+def fan(n):
+    """closed-loop fan: n triangles around a centre, n+1 vertices"""
+    vs = [(0.0, 0.0, 0.0)] + [(math.cos(2 * math.pi * k / n) * 50, math.sin(2 * math.pi * k / n) * 50, 0.01 * (k % 5)) for k in range(n)]
+    return vs, [(0, 1 + k, 1 + (k + 1) % n) for k in range(n)]
+
+def size_pass(ck, hb, tooldir, rng, quick):
+    """block-size boundaries, implementation only (no model run: these meshes are large): triangle and vertex counts at powers of
+    two and their neighbours, every format; the before/after relation must hold"""
+    sizes = [4095, 4096, 4097, 8192] if quick else [4095, 4096, 4097, 8191, 8192, 8193, 16384, 65536]
+    cases = []
+    for n in sizes:
+        for mk, nm in ((lambda k: strip(k, rng), "strip"), (fan, "fan")):
+            for tri_count in (n, n - 2 if nm == "strip" else n - 1):      # exactly n triangles / exactly n vertices
+                vs, ts = mk(tri_count)
+                for fmt in range(4):
+                    cases.append(("%s with %d triangles, %d vertices" % (nm, len(ts), len(vs)), fmt,
+                                  "c15 " + " ".join(map(str, [1, fmt, 1] + mesh_wire(vs, ts) + [0]))))
+    rc, io, err = core.run_harness(hb, [c for _, _, c in cases], ck.workdir, env={"OM_TOOLS": tooldir})
+    bad = 0
+    for (what, fmt, c), i in zip(cases, io):
+        r = "crash" if i.startswith("CRASH") else None
+        if r is None:
+            o = [int(x) for x in i.split()]
+            if o[0] != 0: r = "build failed"
+            else:
+                before, p = parse_dump(o, 1); after = parse_dump(o, p + 1)[0] if o[p] == 0 else None
+                r = relation_roundtrip(fmt, before, after)
+        if r and bad < 4:
+            bad += 1
+            ck.violation("roundtrip %s: %s" % (FMT[fmt], what),
+                         "a mesh is not the same after save+load in format %s (%s): %s (generated by checks/c15.py strip()/fan(), no random part in the structure)" % (FMT[fmt], r, what),
+                         dict(kind="property-relation", cases=[c], replay_cmd="./check C15 --replay <this file>"))
+    return len(cases)
+
 def second_mesh(rng, vs, ts):
     """a mesh sharing some vertices (exact coordinates) with (vs, ts): shifted copy glued along coincident points, or a random one"""
     c = rng.random()
@@ -502,6 +544,7 @@ def judge(ck, line, m, i, cid):
 def shrink(ck, hb, tooldir, line, pred, rounds=6):
     """greedy removal of triangles while pred(model_out, impl_out, line) still holds"""
     cur = line
+    if len(line) > 20000: return cur          # large meshes (size-boundary cases) are reported as they are: each candidate costs seconds
     for _ in range(rounds):
         name, ms = describe(cur)
         cands = []
@@ -596,6 +639,18 @@ def main(replay=None):
             _, vs, ts = gen_mesh(rng, allow_bad=False)
             for fmt in range(4):
                 cases.append(case_roundtrip(fmt, 2, vs, ts)); labels.append("roundtrip:no-update")
+        # block-size boundaries (model and implementation): exactly 2^k triangles, exactly 2^k vertices, and neighbours, every format
+        near = [511, 513, 1023, 1025, 2047, 2049, 255, 257]
+        for fmt in range(4):
+            ns = [512, 1024, 1022, 2048] + [near[(2 * fmt + ck.seed) % len(near)], near[(2 * fmt + 1 + ck.seed) % len(near)]]
+            if not quick: ns += near + [4096, 4094]
+            for n in ns:
+                vs, ts = strip(n, rng)
+                cases.append(case_roundtrip(fmt, 1, vs, ts)); labels.append("roundtrip:size%d" % n)
+            vs, ts = fan(1023 if fmt % 2 else 1024)              # 1024 vertices / 1024 triangles
+            cases.append(case_roundtrip(fmt, 1, vs, ts)); labels.append("roundtrip:fan")
+        vs, ts = strip(1024, rng)
+        cases.append(case_writer(3, 1, len(cases), vs, ts)); labels.append("writer:size1024")
         # tool-level round trips through om_mesh_convert: closed and open surfaces, both windings, all format pairs over a run
         chains = [(0, 1, 0), (1, 0, 1), (0, 2, 0), (2, 3, 2), (3, 0, 3), (1, 3, 1), (0, 3, 1), (2, 1, 0), (3, 2, 0), (1, 2, 3)]
         shapes = [("closed", lambda: models.icosphere(rng.choice([0, 1]))), ("closed", lambda: models.octasphere(1)),
@@ -635,9 +690,10 @@ def main(replay=None):
                 unused = set(before["gidx"]) - {a for t in before["tris"] for a in t}
                 r = relation_roundtrip(fmt, before, after)
                 if r: relfail.append((c, lab, fmt, r, bool(unused)))
-    ngeo = (0, 0)
+    ngeo = (0, 0); nsize = 0
     if not replay:
         ngeo = geometry_pass(ck, hb, tooldir, rng, quick)
+        nsize = size_pass(ck, hb, tooldir, rng, quick)
     # loading into a used object (op 7): fresh and reused loads must describe the same mesh
     for c, lab, m, i in zip(cases, labels, mo, io):
         if c.split()[1] != "7" or i.startswith("CRASH"): continue
@@ -688,7 +744,7 @@ def main(replay=None):
                        "x {tri,off,bnd,mesh} round trips + writer streams (incl. vtk) + merge + om_mesh_convert/om_mesh_concat; non-trivial = more than 40 integers; distinct = distinct case lines",
                   samples=[short(c) for c in cases[len(cases) // 2:len(cases) // 2 + 3]], op_distribution=dist, feature_distribution=tagdist,
                   error_outcomes=errpaths, correspondence_mismatches=len(mism), property_relation_failures=len(relfail),
-                  writer_files_compared=files_cmp, geometry_saves=ngeo[0], geometry_meshes_roundtripped=ngeo[1], traces_validated_against_impl=len(cases))
+                  writer_files_compared=files_cmp, large_size_roundtrips_impl_only=nsize, geometry_saves=ngeo[0], geometry_meshes_roundtripped=ngeo[1], traces_validated_against_impl=len(cases))
     ck.cov["trusted_base"] += ["hand-written Gallina model coq/Geom/MeshCodec.v tied by exact differential runs (harness/h_c15.cpp vs extracted extract/omm) and by token/byte comparison of the written files",
                                "extraction: ExtrOcamlBasic only; OCaml driver extract/main.ml",
                                "Python: rnd images float('%.6g' % x) and float32 via struct; tokenisation of the written files by whitespace"]
